@@ -54,9 +54,37 @@ def random_session(rng, profile="small", solve_calls=("find_answer",), max_produ
                     steps.append({"a": "add_key", "id": k})
         call = rng.choice(solve_calls)
         if call == "solve" and rng.random() < 0.7:
-            for i in range(len(decl)):
-                if i not in keys and rng.random() < 0.6:
-                    keys.add(i)
-                    steps.append({"a": "add_key", "id": i})
+            more = [i for i in range(len(decl)) if i not in keys and rng.random() < 0.6]
+            if more:
+                rng.shuffle(more)
+                keys.update(more)
+                steps.append({"a": "add_key", "ids": more})   # one call registering several variables
         steps.append({"a": call})
+    return steps
+
+
+def latin_session(rng, n, calls, limit=None):
+    """A program too large to enumerate, with two solutions supplied by the driver (cyclic Latin
+    squares shifted against each other, so they disagree on every cell: no fact is common to all
+    solutions).  With `limit`, cspuz.config.solver_timeout is set first: an option may make a call
+    refuse loudly, never answer wrongly."""
+    steps = []
+    if limit is not None:
+        steps.append({"a": "config", "key": "solver_timeout", "value": limit})
+    perm = list(range(1, n + 1))
+    rng.shuffle(perm)
+    for _ in range(n * n):
+        steps.append({"a": "int_var", "lo": 1, "hi": n})
+    V = lambda i, j: {"f": "var", "id": i * n + j}
+    lines = [[V(i, j) for j in range(n)] for i in range(n)] + [[V(i, j) for i in range(n)] for j in range(n)]
+    rng.shuffle(lines)
+    for ln in lines:
+        steps.append({"a": "ensure", "x": {"f": "alldifferent", "args": [{"f": "list", "args": ln}]}})
+    w = [[perm[(i + j + sh) % n] for i in range(n) for j in range(n)] for sh in (0, 1)]
+    keyed = False
+    for c in dict.fromkeys(calls):
+        if c == "solve" and not keyed:
+            keyed = True
+            steps.append({"a": "add_key_all"})
+        steps.append({"a": c, "w": w})
     return steps
